@@ -54,10 +54,12 @@ func verifLoopDomains(c *v1.DomainConfig, s *v1.ServerConfig, idx int, m int) bo
 // Server-side validation of a reconstructed proxy: an accepted vhost-class
 // proxy (http, https, tcpmux) is only accepted when the server has the
 // matching vhost port, and none of its custom domains lies in the server's
-// subdomain space.
+// subdomain space. (C16: this is what keeps a peer's NewProxy from reaching a
+// vhost muxer the server never created - the proxies dereference it without a
+// nil check, in a goroutine that has no recover.)
 //
 //verif:contract ~/pkg/config/v1/validation.ValidateProxyConfigurerForServer
-//verif:props C18
+//verif:props C18 C16
 //verif:modifies
 func verif_ValidateProxyConfigurerForServer(c v1.ProxyConfigurer, s *v1.ServerConfig, k int) {
 	verif.Requires(c != nil, "configuration_present")
